@@ -11,7 +11,7 @@ import numpy as np
 
 from simkit import simio
 from simkit.engine import Refuse, Violation
-from simkit.worldbase import BUFS, CHUNKS, LINE_FAULTS, WorldBase
+from simkit.worldbase import BUFS, CHUNKS, LINE_FAULTS, WorldBase, lib_logging
 from worlds.c05 import expected_read, parse_frames
 
 PREFIXES = ("dump", "voro_a", "voro_b", "run.v2", "sub/vor", "neighbor_run2", "neighbors.d/glass.T0.45")
@@ -479,6 +479,8 @@ class World(WorldBase):
             else:
                 nev = self.dry_events(lambda: self.invoke(op))
                 op["fault"] = {"kind": fkind, "at": self.pick_fault_event(rng, nev), "hold": rng.randint(0, sw["hold_max"])}
+                if fkind == "oserror_write" and rng.random() < 0.5:
+                    op["fault"]["persist"] = True        # the disk stays full for the rest of the call
         else:
             self.gen_env(rng, op)
             readable = sorted(h for h, d in self.handles.items() if not d["stale"] and d["prefix"] != op["prefix"]
@@ -495,11 +497,27 @@ class World(WorldBase):
                                "edgeitems": rng.choice([1, 3]), "precision": rng.choice([3, 8])}
         if rng.random() < sw.get("p_thread", 0.0):
             op["thread"] = True
+        if op.get("printopts") and rng.random() < 0.4:
+            op["printopts_scoped"] = True          # `with np.printoptions(...)`: restored after the call
+        if rng.random() < sw.get("p_env", 0.0) * 0.7:
+            op["loglevel"] = rng.choice(["DEBUG", "DEBUG", "INFO"])
 
     def client(self, op, fn):
+        """fn as the client calls it: after its own changes to the process, maybe from a worker thread."""
         po = op.get("printopts")
 
         def run():
+            if op.get("loglevel"):
+                self.ctx.probe("client_switched_library_logging_on")
+                with lib_logging(op["loglevel"]):
+                    return run2()
+            return run2()
+
+        def run2():
+            if po and op.get("printopts_scoped"):
+                self.ctx.probe("client_changed_numpy_printoptions_scoped")
+                with np.printoptions(**po):
+                    return fn()
             if po:
                 np.set_printoptions(**po)
                 self.ctx.probe("client_changed_numpy_printoptions")
